@@ -25,7 +25,7 @@ def b01 (b : Bool) : String := if b then "1" else "0"
 def actChar : Act → String
   | .close => "c" | .unref => "u" | .keep => "k" | .hide => "h" | .unhide => "s"
   | .raise => "r" | .raiseFront => "R" | .lower => "l" | .lowerBack => "L" | .focus => "f"
-  | .stealOn => "t" | .stealOff => "T"
+  | .stealOn => "t" | .stealOff => "T" | .geom .. => "g"
 
 def showItem : LogItem → Option String
   | .offer _ _ _ _ => none
@@ -63,6 +63,15 @@ def parseAct : Char → Option Act
 
 def parseAction (s : String) : Option Action :=
   match s.toList with
+  | 'g' :: rest =>
+    -- g<id>@<dtop>@<dleft>@<dlines>@<dcols>
+    match (String.ofList rest).splitOn "@" with
+    | [w, a, b, c, d] => do
+      let n ← w.toNat?
+      match ints? [a, b, c, d] with
+      | some [a, b, c, d] => pure { act := .geom a b c d, win := n }
+      | _ => none
+    | _ => none
   | c :: rest => do
     let a ← parseAct c
     let n ← (String.ofList rest).toNat?
@@ -240,6 +249,8 @@ def parseItem (s : String) : Item :=
 structure Mon where
   cur : St
   affected : List Id := []
+  /-- the windows moved or resized (themselves, or an ancestor) by a handler since the dispatch began -/
+  moved : List Id := []
   err : String := ""
 
 def Mon.fail (m : Mon) (e : String) : Mon := if m.err.isEmpty then { m with err := e } else m
@@ -292,6 +303,10 @@ def specApply (m : Mon) (kind : Kind) (a : Action) : Mon :=
           | none => [])
       else []
     { m with cur := okOr (doAction st a) st, affected := m.affected ++ aff }
+  -- a window that is moved / resized from inside the dispatch: whether it and the windows below it are (still) under
+  -- the pointer, and from which of its positions their coordinates are counted, is left open; every other window must
+  -- be offered the event as before, at the position relative to itself
+  | .geom .. => { m with cur := okOr (doAction st a) st, affected := m.affected ++ sub, moved := m.moved ++ sub }
   | _ => { m with cur := okOr (doAction st a) st }
 
 def specDestroy (st : St) (w : Id) : St :=
@@ -324,7 +339,7 @@ def checkCall (m : Mon) (what : String) (origin : Id) (absL absC : Int) (button 
     let m := if !blockStart ∨ visibleChain t (treeFuel t) c.win then m
       else m.fail s!"hidden_never ({what}): window {c.win} was offered the event while it or one of its ancestors is hidden (or destroyed)"
     let m :=
-      if c.kind = Kind.mouse ∧ blockStart ∧ (ancestorsOrSelf t c.win).contains origin then
+      if c.kind = Kind.mouse ∧ blockStart ∧ (ancestorsOrSelf t c.win).contains origin ∧ !m.moved.contains c.win then
         match absGeometry t (treeFuel t) c.win with
         | .ok g =>
           if c.ev.line = absL - g.top ∧ c.ev.col = absC - g.left then m
@@ -378,7 +393,7 @@ def checkSegment (m : Mon) (kind : Kind) (what : String) (origin : Option Id) (a
         | .ok g => ((mouseVisits t0 (routeFuel t0) o { type := 0, line := absL - g.top, col := absC - g.left }).getD []).map (·.1)
         | .ub _ => []
   let refOrder := refOrder.filter hasB
-  let m := { m with affected := exempt }
+  let m := { m with affected := exempt, moved := [] }
   -- walk the items
   let step := fun (acc : Mon × List Id × Option Call × Option Id) (iti : Item × Nat) =>
     let (it, idx) := iti
